@@ -543,4 +543,874 @@ theorem matchPolicy_iff (es : List Expr) (hs : List Hop) :
   rw [matchSeq_iff hs es [0] (by simp)]
   simp
 
+/-! ## 4. parser -/
+
+/-- a successful `parse_expr` consumes at least one token; the loop never gives tokens back -/
+theorem parse_consumes : ∀ fuel : Nat,
+    (∀ bp toks e rest, parseExpr fuel bp toks = .ok (e, rest) → rest.length < toks.length) ∧
+    (∀ bp e toks e' rest, parseLoop fuel bp e toks = .ok (e', rest) → rest.length ≤ toks.length) := by
+  intro fuel
+  induction fuel with
+  | zero => constructor <;> intros <;> simp_all [parseExpr, parseLoop]
+  | succ fuel ih =>
+    obtain ⟨ihE, ihL⟩ := ih
+    constructor
+    · intro bp toks e rest h
+      cases toks with
+      | nil => simp [parseExpr] at h
+      | cons t ts =>
+        cases t <;> simp only [parseExpr] at h <;> try (simp at h; done)
+        · -- pred
+          split at h
+          · simp at h
+          · have := ihL _ _ _ _ _ h; simp; omega
+        · -- lparen
+          split at h
+          · simp at h
+          · rename_i e1 r1 h1
+            have h1' := ihE _ _ _ _ h1
+            split at h
+            · rename_i r2
+              have := ihL _ _ _ _ _ h
+              simp at h1' ⊢; omega
+            · simp at h
+            · simp at h
+    · intro bp e toks e' rest h
+      cases toks with
+      | nil => simp [parseLoop] at h; simp [h]
+      | cons t ts =>
+        cases t <;> simp only [parseLoop] at h <;>
+          try (first
+            | (simp only [Except.ok.injEq, Prod.mk.injEq] at h; rw [← h.2]; exact Nat.le_refl _)
+            | (have := ihL _ _ _ _ _ h; simp; omega)
+            | (simp at h; done))
+        · -- or
+          split at h
+          · simp only [Except.ok.injEq, Prod.mk.injEq] at h; rw [← h.2]; exact Nat.le_refl _
+          · split at h
+            · simp at h
+            · rename_i r rest' h1
+              have h1' := ihE _ _ _ _ h1
+              have := ihL _ _ _ _ _ h
+              simp; omega
+
+/-- with more fuel than tokens the recursion never runs out of fuel -/
+theorem parse_no_fuel_error : ∀ fuel : Nat,
+    (∀ bp toks, toks.length < fuel → parseExpr fuel bp toks ≠ .error .fuel) ∧
+    (∀ bp e toks, toks.length < fuel → parseLoop fuel bp e toks ≠ .error .fuel) := by
+  intro fuel
+  induction fuel with
+  | zero => constructor <;> intros <;> omega
+  | succ fuel ih =>
+    obtain ⟨ihE, ihL⟩ := ih
+    constructor
+    · intro bp toks hlen
+      cases toks with
+      | nil => simp [parseExpr]
+      | cons t ts =>
+        simp only [List.length_cons] at hlen
+        cases t <;> simp only [parseExpr] <;> try (simp; done)
+        · split
+          · simp
+          · exact ihL _ _ _ (by omega)
+        · split
+          · rename_i err h1
+            intro h; injection h with h; subst h
+            exact ihE _ _ (by omega) h1
+          · rename_i e1 r1 h1
+            have h1' := (parse_consumes fuel).1 _ _ _ _ h1
+            split
+            · rename_i r2
+              exact ihL _ _ _ (by simp at h1'; omega)
+            · simp
+            · simp
+    · intro bp e toks hlen
+      cases toks with
+      | nil => simp [parseLoop]
+      | cons t ts =>
+        simp only [List.length_cons] at hlen
+        cases t <;> simp only [parseLoop] <;>
+          try (first
+            | (exact ihL _ _ _ (by omega))
+            | (simp; done))
+        · split
+          · simp
+          · split
+            · rename_i err h1
+              intro h; injection h with h; subst h
+              exact ihE _ _ (by omega) h1
+            · rename_i r rest' h1
+              have h1' := (parse_consumes fuel).1 _ _ _ _ h1
+              exact ihL _ _ _ (by omega)
+
+theorem parseTop_no_fuel_error : ∀ (fuel : Nat) (toks : List Tok) (acc : List Expr),
+    toks.length < fuel → parseTop fuel toks acc ≠ .error .fuel := by
+  intro fuel
+  induction fuel with
+  | zero => intros; omega
+  | succ fuel ih =>
+    intro toks acc hlen
+    have key : (match parseExpr (toks.length + 1) NO_BIND_POWER toks with
+        | .error e => (.error e : Except PErr (List Expr))
+        | .ok (e, rest) => parseTop fuel rest (e :: acc)) ≠ .error .fuel := by
+      split
+      · rename_i err h1
+        intro h; injection h with h; subst h
+        exact (parse_no_fuel_error _).1 _ _ (Nat.lt_succ_self _) h1
+      · rename_i e rest h1
+        have := (parse_consumes _).1 _ _ _ _ h1
+        exact ih _ _ (by omega)
+    cases toks with
+    | nil => simp [parseTop, parseExpr]
+    | cons t ts =>
+      cases t <;> simp only [parseTop] <;> try exact key
+      split <;> simp
+
+/-- a result other than "out of fuel" does not depend on the fuel -/
+theorem parse_fuel_succ : ∀ f : Nat,
+    (∀ bp toks, parseExpr f bp toks ≠ .error .fuel → parseExpr (f + 1) bp toks = parseExpr f bp toks) ∧
+    (∀ bp e toks, parseLoop f bp e toks ≠ .error .fuel → parseLoop (f + 1) bp e toks = parseLoop f bp e toks) := by
+  intro f
+  induction f with
+  | zero => constructor <;> intros <;> simp_all [parseExpr, parseLoop]
+  | succ f ih =>
+    obtain ⟨ihE, ihL⟩ := ih
+    constructor
+    · intro bp toks h
+      cases toks with
+      | nil => simp [parseExpr]
+      | cons t ts =>
+        cases t <;> try (simp [parseExpr]; done)
+        · -- pred
+          rename_i s
+          simp only [parseExpr] at h ⊢
+          cases hp : parsePred s with
+          | none => rfl
+          | some p => simp only [hp] at h ⊢; exact ihL _ _ _ h
+        · -- lparen
+          by_cases hI : parseExpr f NO_BIND_POWER ts = .error .fuel
+          · simp [parseExpr, hI] at h
+          · rw [parseExpr, ihE _ _ hI]
+            conv => rhs; rw [parseExpr]
+            simp only [parseExpr] at h
+            cases hr : parseExpr f NO_BIND_POWER ts with
+            | error e => rfl
+            | ok v =>
+              obtain ⟨e1, r1⟩ := v
+              simp only [hr] at h ⊢
+              cases r1 with
+              | nil => rfl
+              | cons t2 r2 =>
+                cases t2 <;> try rfl
+                exact ihL _ _ _ h
+    · intro bp e toks h
+      cases toks with
+      | nil => simp [parseLoop]
+      | cons t ts =>
+        cases t <;> try (simp [parseLoop]; done)
+        · -- or
+          rw [parseLoop] at h
+          conv => lhs; rw [parseLoop]
+          conv => rhs; rw [parseLoop]
+          split
+          · rfl
+          · rename_i hbp
+            simp only [hbp, if_false] at h
+            generalize hbp' : (if OR_LEFT_TO_RIGHT then OR_BIND_POWER + 1 else OR_BIND_POWER) = bp' at h ⊢
+            by_cases hI : parseExpr f bp' ts = .error .fuel
+            · simp [hI] at h
+            · rw [ihE _ _ hI]
+              cases hr : parseExpr f bp' ts with
+              | error e => rfl
+              | ok v =>
+                obtain ⟨e1, r1⟩ := v
+                simp only [hr] at h ⊢
+                exact ihL _ _ _ h
+        all_goals
+          rw [parseLoop] at h
+          conv => lhs; rw [parseLoop]
+          conv => rhs; rw [parseLoop]
+          exact ihL _ _ _ h
+
+theorem parseExpr_mono {f f' bp : Nat} {toks : List Tok} {r : Except PErr (Expr × List Tok)}
+    (h : parseExpr f bp toks = r) (hr : r ≠ .error .fuel) (hle : f ≤ f') : parseExpr f' bp toks = r := by
+  obtain ⟨k, rfl⟩ := Nat.exists_eq_add_of_le hle
+  induction k with
+  | zero => exact h
+  | succ k ih =>
+    have := ih (Nat.le_add_right _ _)
+    rw [← Nat.add_assoc, (parse_fuel_succ (f + k)).1 bp toks (this ▸ hr), this]
+
+theorem parseLoop_mono {f f' bp : Nat} {e : Expr} {toks : List Tok} {r : Except PErr (Expr × List Tok)}
+    (h : parseLoop f bp e toks = r) (hr : r ≠ .error .fuel) (hle : f ≤ f') : parseLoop f' bp e toks = r := by
+  obtain ⟨k, rfl⟩ := Nat.exists_eq_add_of_le hle
+  induction k with
+  | zero => exact h
+  | succ k ih =>
+    have := ih (Nat.le_add_right _ _)
+    rw [← Nat.add_assoc, (parse_fuel_succ (f + k)).2 bp e toks (this ▸ hr), this]
+
+/-- fuel-free reading of the parser: "`parse_expr(bp)` on `toks` returns `r`" -/
+def ParsesTo (bp : Nat) (toks : List Tok) (r : Except PErr (Expr × List Tok)) : Prop :=
+  ∃ f, parseExpr f bp toks = r ∧ r ≠ .error .fuel
+/-- "the left-denotation loop of `parse_expr(bp)`, entered with `e`, returns `r` on `toks`" -/
+def LoopsTo (bp : Nat) (e : Expr) (toks : List Tok) (r : Except PErr (Expr × List Tok)) : Prop :=
+  ∃ f, parseLoop f bp e toks = r ∧ r ≠ .error .fuel
+
+theorem ParsesTo.run {bp : Nat} {toks : List Tok} {r} (h : ParsesTo bp toks r) :
+    parseExpr (toks.length + 1) bp toks = r := by
+  obtain ⟨f, hf, hr⟩ := h
+  have hnf := (parse_no_fuel_error (toks.length + 1)).1 bp toks (Nat.lt_succ_self _)
+  rcases Nat.le_total f (toks.length + 1) with hle | hle
+  · exact parseExpr_mono hf hr hle
+  · have := parseExpr_mono rfl hnf hle
+    rw [← this, hf]
+
+/-- **Renderings of an expression as tokens, with any amount of redundant parentheses.**
+`top = true`: a rendering in which an `|` chain may appear unparenthesised (expression level);
+`top = false`: an operand (an atom, a parenthesised rendering, or an operand followed by `? + *`). -/
+inductive Renders : Bool → Expr → List Tok → Prop where
+  | pred {s : List Char} {p : Pred} : parsePred s = some p → Renders false (.pred p) [.pred s]
+  | paren {top : Bool} {e : Expr} {ts : List Tok} : Renders top e ts → Renders false e (.lparen :: ts ++ [.rparen])
+  | optional {e : Expr} {ts : List Tok} : Renders false e ts → Renders false (.optional e) (ts ++ [.qmark])
+  | oneOrMore {e : Expr} {ts : List Tok} : Renders false e ts → Renders false (.oneOrMore e) (ts ++ [.plus])
+  | zeroOrMore {e : Expr} {ts : List Tok} : Renders false e ts → Renders false (.zeroOrMore e) (ts ++ [.star])
+  | or {a b : Expr} {ta tb : List Tok} : Renders true a ta → Renders false b tb →
+      Renders true (.or a b) (ta ++ .or :: tb)
+  | operand {e : Expr} {ts : List Tok} : Renders false e ts → Renders true e ts
+
+/-- the next token does not continue an operand (`? + *`) and is not the unsupported `&` -/
+def NoPostfix : List Tok → Prop
+  | .qmark :: _ | .plus :: _ | .star :: _ | .and :: _ => False
+  | _ => True
+
+theorem loop_stops {bp : Nat} {e : Expr} {rest : List Tok} (h : NoPostfix rest)
+    (hor : OR_BIND_POWER < bp ∨ rest.head? ≠ some .or) :
+    LoopsTo bp e rest (.ok (e, rest)) := by
+  refine ⟨1, ?_, by simp⟩
+  cases rest with
+  | nil => simp [parseLoop]
+  | cons t ts =>
+    cases t <;> simp_all [parseLoop, NoPostfix]
+
+/-- **Parsing a rendering = continuing with its expression** (continuation form). -/
+theorem renders_parse {top : Bool} {e : Expr} {ts : List Tok} (h : Renders top e ts) :
+    ∀ (bp : Nat) (rest : List Tok) (r : Except PErr (Expr × List Tok)),
+      (top = true → bp ≤ OR_BIND_POWER ∧ NoPostfix rest) →
+      LoopsTo bp e rest r → ParsesTo bp (ts ++ rest) r := by
+  induction h with
+  | pred hp =>
+    rintro bp rest r - ⟨f, hf, hr⟩
+    exact ⟨f + 1, by simp [parseExpr, hp, hf], hr⟩
+  | @paren top e ts _ ih =>
+    rintro bp rest r - ⟨f, hf, hr⟩
+    have inner : ParsesTo NO_BIND_POWER (ts ++ .rparen :: rest) (.ok (e, .rparen :: rest)) :=
+      ih NO_BIND_POWER (.rparen :: rest) _ (fun _ => ⟨by decide, trivial⟩)
+        (loop_stops trivial (.inr (by simp)))
+    obtain ⟨f1, hf1, hr1⟩ := inner
+    refine ⟨max f f1 + 1, ?_, hr⟩
+    simp only [List.cons_append, List.append_assoc, List.nil_append, parseExpr]
+    rw [parseExpr_mono hf1 hr1 (Nat.le_max_right _ _)]
+    exact parseLoop_mono hf hr (Nat.le_max_left _ _)
+  | optional _ ih =>
+    rintro bp rest r - ⟨f, hf, hr⟩
+    rw [List.append_assoc]
+    exact ih bp _ r (by simp) ⟨f + 1, by simpa [parseLoop] using hf, hr⟩
+  | oneOrMore _ ih =>
+    rintro bp rest r - ⟨f, hf, hr⟩
+    rw [List.append_assoc]
+    exact ih bp _ r (by simp) ⟨f + 1, by simpa [parseLoop] using hf, hr⟩
+  | zeroOrMore _ ih =>
+    rintro bp rest r - ⟨f, hf, hr⟩
+    rw [List.append_assoc]
+    exact ih bp _ r (by simp) ⟨f + 1, by simpa [parseLoop] using hf, hr⟩
+  | @or a b ta tb _ _ iha ihb =>
+    rintro bp rest r htop ⟨f, hf, hr⟩
+    obtain ⟨hbp, hnp⟩ := htop rfl
+    rw [List.append_assoc]
+    refine iha bp _ r (fun _ => ⟨hbp, trivial⟩) ?_
+    -- the right operand is parsed with binding power OR_BIND_POWER + 1 and stops in front of `rest`
+    have hb : ParsesTo (OR_BIND_POWER + 1) (tb ++ rest) (.ok (b, rest)) :=
+      ihb (OR_BIND_POWER + 1) rest _ (by simp) (loop_stops hnp (.inl (Nat.lt_succ_self _)))
+    obtain ⟨f1, hf1, hr1⟩ := hb
+    refine ⟨max f f1 + 1, ?_, hr⟩
+    have hlr : OR_LEFT_TO_RIGHT = true := by decide
+    simp only [List.cons_append, parseLoop, Nat.not_lt.mpr hbp, if_false, hlr, if_true]
+    rw [parseExpr_mono hf1 hr1 (Nat.le_max_right _ _)]
+    exact parseLoop_mono hf hr (Nat.le_max_left _ _)
+  | operand _ ih =>
+    rintro bp rest r - hl
+    exact ih bp rest r (by simp) hl
+
+/-- the first token of an operand: a hop predicate or `(` -/
+def StartsOperand : List Tok → Prop
+  | .pred _ :: _ | .lparen :: _ => True
+  | _ => False
+
+theorem StartsOperand.append {ts : List Tok} (h : StartsOperand ts) (x : List Tok) : StartsOperand (ts ++ x) := by
+  cases ts with
+  | nil => exact absurd h (by simp [StartsOperand])
+  | cons t ts => cases t <;> simp_all [StartsOperand]
+
+theorem Renders.starts {top : Bool} {e : Expr} {ts : List Tok} (h : Renders top e ts) : StartsOperand ts := by
+  induction h with
+  | pred _ => trivial
+  | paren _ _ => trivial
+  | optional _ ih => exact ih.append _
+  | oneOrMore _ ih => exact ih.append _
+  | zeroOrMore _ ih => exact ih.append _
+  | or _ _ iha _ => exact iha.append _
+  | operand _ ih => exact ih
+
+/-- what may follow a complete expression at the top level or inside parentheses: another operand,
+    `)`, or the end of input – in particular not `? + * & |` -/
+def Follows : List Tok → Prop
+  | .pred _ :: _ | .lparen :: _ | .rparen :: _ | .eoi :: _ | [] => True
+  | _ => False
+
+/-- **Every rendering of `e` – whatever redundant parentheses it contains – parses to `e`** and leaves exactly
+    the tokens that follow it. -/
+theorem renders_parseExpr {top : Bool} {e : Expr} {ts : List Tok} (h : Renders top e ts)
+    (rest : List Tok) (hrest : Follows rest) :
+    parseExpr ((ts ++ rest).length + 1) NO_BIND_POWER (ts ++ rest) = .ok (e, rest) := by
+  apply ParsesTo.run
+  apply renders_parse h
+  · intro _
+    refine ⟨by decide, ?_⟩
+    cases rest with
+    | nil => trivial
+    | cons t _ => cases t <;> simp_all [Follows, NoPostfix]
+  · apply loop_stops
+    · cases rest with
+      | nil => trivial
+      | cons t _ => cases t <;> simp_all [Follows, NoPostfix]
+    · right
+      cases rest with
+      | nil => simp
+      | cons t _ => cases t <;> simp_all [Follows]
+
+/-- renderings of a pattern: juxtaposed renderings of its expressions -/
+inductive RendersSeq : List Expr → List Tok → Prop where
+  | nil : RendersSeq [] []
+  | cons {top : Bool} {e : Expr} {ts : List Tok} {es : List Expr} {tss : List Tok} :
+      Renders top e ts → RendersSeq es tss → RendersSeq (e :: es) (ts ++ tss)
+
+theorem StartsOperand.follows {l : List Tok} (h : StartsOperand l) : Follows l := by
+  cases l with
+  | nil => trivial
+  | cons t _ => cases t <;> simp_all [StartsOperand, Follows]
+
+theorem RendersSeq.follows {es : List Expr} {tss : List Tok} (h : RendersSeq es tss) :
+    Follows (tss ++ [.eoi]) := by
+  cases h with
+  | nil => trivial
+  | cons hr' _ => exact ((hr'.starts.append _).append _).follows
+
+theorem parseTop_step {f : Nat} {toks : List Tok} {acc : List Expr} (h : StartsOperand toks)
+    {e : Expr} {rest : List Tok} (hp : parseExpr (toks.length + 1) NO_BIND_POWER toks = .ok (e, rest)) :
+    parseTop (f + 1) toks acc = parseTop f rest (e :: acc) := by
+  cases toks with
+  | nil => exact absurd h (by simp [StartsOperand])
+  | cons t ts =>
+    cases t <;> simp only [StartsOperand] at h
+    all_goals
+      simp only [parseTop, hp]
+
+theorem rendersSeq_parseTop {es : List Expr} {ts : List Tok} (h : RendersSeq es ts) :
+    ∀ (f : Nat) (acc : List Expr), ts.length + 1 < f →
+      parseTop f (ts ++ [.eoi]) acc = .ok (acc.reverse ++ es) := by
+  induction h with
+  | nil =>
+    intro f acc hf
+    cases f with
+    | zero => omega
+    | succ f => simp [parseTop]
+  | @cons top e ts es tss hr hs ih =>
+    intro f acc hf
+    cases f with
+    | zero => omega
+    | succ f =>
+      have hfol := hs.follows
+      rw [List.append_assoc, parseTop_step (hr.starts.append _) (renders_parseExpr hr _ hfol)]
+      have hlen : 0 < ts.length := by
+        have := hr.starts
+        cases ts with
+        | nil => exact absurd this (by simp [StartsOperand])
+        | cons _ _ => simp
+      rw [ih f (e :: acc) (by simp only [List.length_append] at hf; omega)]
+      simp
+
+/-- **Redundant parentheses do not change what a pattern means (token level)**: every token sequence
+    that renders the pattern `es` – with parentheses anywhere the grammar allows them – is parsed to
+    exactly `es`; hence two renderings of the same pattern always parse to the same AST. -/
+theorem rendersSeq_parseTokens {es : List Expr} {ts : List Tok} (h : RendersSeq es ts) :
+    parseTokens (ts ++ [.eoi]) = .ok es := by
+  unfold parseTokens
+  rw [rendersSeq_parseTop h _ [] (by simp)]
+  simp
+
+/-! ## 5. lexer: whitespace between tokens is irrelevant -/
+
+/-- the text of a token -/
+def Tok.text : Tok → List Char
+  | .pred s => s
+  | .bang => ['!'] | .and => ['&'] | .or => ['|'] | .lparen => ['('] | .rparen => [')']
+  | .qmark => ['?'] | .plus => ['+'] | .star => ['*'] | .eoi => []
+
+/-- a symbol token: one of the single-character tokens of the lexer table -/
+def Tok.isSymbol (t : Tok) : Prop := ∃ c, t.text = [c] ∧ singleCharTok c = some t
+
+/-- a predicate token whose text is non-empty and free of whitespace and reserved characters -/
+def Tok.isPlainPred (t : Tok) : Prop := ∃ s, t = .pred s ∧ s ≠ [] ∧ ∀ c ∈ s, stopsPred c = false
+
+/-- `s` is the token sequence `ts` written with arbitrary skipped whitespace (space, tab, newline) before,
+    between and after the tokens; a hop predicate must be followed by whitespace, a symbol or the end. -/
+inductive Spaced : List Tok → List Char → Prop where
+  | nil {ws : List Char} : (∀ c ∈ ws, c ∈ LEX_SKIP) → Spaced [] ws
+  | sym {ws : List Char} {t : Tok} {ts : List Tok} {rest : List Char} :
+      (∀ c ∈ ws, c ∈ LEX_SKIP) → t.isSymbol → Spaced ts rest → Spaced (t :: ts) (ws ++ t.text ++ rest)
+  | pred {ws : List Char} {t : Tok} {ts : List Tok} {rest : List Char} :
+      (∀ c ∈ ws, c ∈ LEX_SKIP) → t.isPlainPred → Spaced ts rest →
+      (rest = [] ∨ ∃ c r, rest = c :: r ∧ stopsPred c = true) → Spaced (t :: ts) (ws ++ t.text ++ rest)
+
+def kinds (l : List Token) : List Tok := l.map (·.kind)
+
+theorem skip_not_single : ∀ c ∈ LEX_SKIP, singleCharTok c = none := by decide
+theorem skip_stops : ∀ c ∈ LEX_SKIP, stopsPred c = true := by decide
+
+theorem single_stops (c : Char) (t : Tok) (h : singleCharTok c = some t) : stopsPred c = true := by
+  have hall : SINGLE_CHAR_TOKENS.all (fun p => RESERVED_CHARS.contains p.1) = true := by decide
+  unfold singleCharTok at h
+  cases hl : SINGLE_CHAR_TOKENS.lookup c with
+  | none => simp [hl] at h
+  | some n =>
+    have : ∀ (l : List (Char × String)), l.lookup c = some n → l.all (fun p => RESERVED_CHARS.contains p.1) = true →
+        RESERVED_CHARS.contains c = true := by
+      intro l
+      induction l with
+      | nil => simp [List.lookup]
+      | cons p l ih =>
+        obtain ⟨a, b⟩ := p
+        simp only [List.lookup, List.all_cons, Bool.and_eq_true]
+        intro h1 h2
+        by_cases hca : c = a
+        · subst hca; exact h2.1
+        · have : (c == a) = false := by simpa using hca
+          simp only [this] at h1
+          exact ih h1 h2.2
+    have hr := this _ hl hall
+    simp only [stopsPred, Bool.or_eq_true]
+    exact .inr hr
+
+theorem lexGo_skip (ws : List Char) (hws : ∀ c ∈ ws, c ∈ LEX_SKIP) (s : List Char) (idx : Nat) :
+    ∃ idx', lexGo (ws ++ s) idx none = lexGo s idx' none := by
+  induction ws generalizing idx with
+  | nil => exact ⟨idx, rfl⟩
+  | cons w ws ih =>
+    have hw := hws w (by simp)
+    obtain ⟨i, hi⟩ := ih (fun c hc => hws c (by simp [hc])) (idx + w.utf8Size)
+    refine ⟨i, ?_⟩
+    have hc : LEX_SKIP.contains w = true := by simpa using hw
+    simp only [List.cons_append, lexGo, lexStart, skip_not_single w hw, hc, if_true, List.nil_append]
+    exact hi
+
+theorem lexGo_inpred (cs : List Char) (hcs : ∀ c ∈ cs, stopsPred c = false) (rest : List Char) (idx s0 : Nat)
+    (acc : List Char) :
+    ∃ idx', lexGo (cs ++ rest) idx (some (s0, acc)) = lexGo rest idx' (some (s0, cs.reverse ++ acc)) := by
+  induction cs generalizing idx acc with
+  | nil => exact ⟨idx, rfl⟩
+  | cons c cs ih =>
+    obtain ⟨i, hi⟩ := ih (fun x hx => hcs x (by simp [hx])) (idx + c.utf8Size) (c :: acc)
+    refine ⟨i, ?_⟩
+    simp only [List.cons_append, lexGo, hcs c (by simp), Bool.false_eq_true, if_false]
+    rw [hi]; simp
+
+theorem spaced_nil_inv {ts : List Tok} {s : List Char} (h : Spaced ts s) (hs : s = []) : ts = [] := by
+  cases h with
+  | nil _ => rfl
+  | sym _ ht _ =>
+    obtain ⟨c, htext, _⟩ := ht
+    simp [htext] at hs
+  | pred _ ht _ _ =>
+    obtain ⟨p, rfl, hne, _⟩ := ht
+    simp only [Tok.text, List.append_eq_nil_iff] at hs
+    exact absurd hs.1.2 hne
+
+theorem spaced_lex {ts : List Tok} {s : List Char} (h : Spaced ts s) :
+    ∀ idx, kinds (lexGo s idx none) = ts ++ [.eoi] := by
+  induction h with
+  | nil hws =>
+    intro idx
+    obtain ⟨i, hi⟩ := lexGo_skip _ hws [] idx
+    simp only [List.append_nil] at hi
+    rw [hi]; rfl
+  | @sym ws t ts rest hws ht _ ih =>
+    intro idx
+    obtain ⟨c, htext, hc⟩ := ht
+    rw [List.append_assoc]
+    obtain ⟨i, hi⟩ := lexGo_skip ws hws (t.text ++ rest) idx
+    rw [hi, htext]
+    simp only [lexGo, lexStart, hc, kinds, List.map_cons, List.cons_append, List.nil_append]
+    have := ih (i + c.utf8Size)
+    simp only [kinds] at this
+    rw [this]
+  | @pred ws t ts rest hws ht _ hrest ih =>
+    intro idx
+    obtain ⟨p, rfl, hne, hplain⟩ := ht
+    rw [List.append_assoc]
+    obtain ⟨i, hi⟩ := lexGo_skip ws hws (Tok.text (.pred p) ++ rest) idx
+    rw [hi]
+    cases p with
+    | nil => exact absurd rfl hne
+    | cons c0 cs =>
+      have hc0 : stopsPred c0 = false := hplain c0 (by simp)
+      have hns : singleCharTok c0 = none := by
+        cases hs : singleCharTok c0 with
+        | none => rfl
+        | some t => rw [single_stops c0 t hs] at hc0; cases hc0
+      have hnk : LEX_SKIP.contains c0 = false := by
+        cases hk : LEX_SKIP.contains c0 with
+        | false => rfl
+        | true => rw [skip_stops c0 (by simpa using hk)] at hc0; cases hc0
+      simp only [Tok.text, List.cons_append, lexGo, lexStart, hns, hnk, Bool.false_eq_true, if_false,
+        List.nil_append]
+      obtain ⟨j, hj⟩ := lexGo_inpred cs (fun x hx => hplain x (by simp [hx])) rest (i + c0.utf8Size) i [c0]
+      rw [hj]
+      have hrev : (cs.reverse ++ [c0]).reverse = c0 :: cs := by simp
+      rcases hrest with rfl | ⟨c, r, rfl, hstop⟩
+      · have hts := spaced_nil_inv ‹Spaced ts []› rfl
+        subst hts
+        simp [lexGo, flushPred, kinds, hrev]
+      · have := ih j
+        simp only [lexGo] at this
+        simp only [lexGo, hstop, if_true, kinds, List.map_append, flushPred, List.map_cons, hrev,
+          List.cons_append, List.nil_append]
+        simp only [kinds, List.map_append] at this
+        rw [this]
+
+/-! ## 6. hop predicate text: print then parse -/
+
+theorem digitsVal_append (val : Char → Option Nat) (r : Nat) (a b : List Char) (acc : Nat) :
+    digitsVal val r (a ++ b) acc = (digitsVal val r a acc).bind (digitsVal val r b) := by
+  induction a generalizing acc with
+  | nil => rfl
+  | cons c cs ih =>
+    simp only [List.cons_append, digitsVal]
+    cases val c with
+    | none => rfl
+    | some d => exact ih _
+
+/-- parsing the digits of `n` in base `b` gives `n` back -/
+theorem digitsVal_toDigits (val : Char → Option Nat) (b : Nat) (hb : 1 < b)
+    (hval : ∀ d, d < b → val (Nat.digitChar d) = some d) (n : Nat) :
+    digitsVal val b (Nat.toDigits b n) 0 = some n := by
+  induction n using Nat.base_induction b hb with
+  | single m hm => simp [Nat.toDigits_of_lt_base hm, digitsVal, hval m hm]
+  | digit m k hk hm ih =>
+    rw [← Nat.toDigits_append_toDigits hb hm hk, digitsVal_append, ih, Nat.toDigits_of_lt_base hk]
+    simp [digitsVal, hval k hk]
+
+/-- every character printed for a number is a digit character of that base -/
+theorem mem_toDigits (b : Nat) (hb : 1 < b) (n : Nat) :
+    ∀ c ∈ Nat.toDigits b n, ∃ d, d < b ∧ c = Nat.digitChar d := by
+  induction n using Nat.base_induction b hb with
+  | single m hm => intro c hc; simp [Nat.toDigits_of_lt_base hm] at hc; exact ⟨m, hm, hc⟩
+  | digit m k hk hm ih =>
+    intro c hc
+    rw [← Nat.toDigits_append_toDigits hb hm hk, Nat.toDigits_of_lt_base hk] at hc
+    rcases List.mem_append.mp hc with h | h
+    · exact ih c h
+    · simp at h; exact ⟨k, hk, h⟩
+
+theorem decVal_digitChar : ∀ d, d < 10 → decVal (Nat.digitChar d) = some d := by decide
+theorem hexVal_digitChar : ∀ d, d < 16 → hexVal (Nat.digitChar d) = some d := by decide
+
+/-- the characters that structure a hop predicate are not digits of any printed number -/
+def isSep (c : Char) : Bool := c == '+' || c == SEP_ISD_ASN || c == SEP_ASN_IF || c == SEP_IF || c == ':'
+
+theorem digitChar_not_sep : ∀ d, d < 16 → isSep (Nat.digitChar d) = false := by decide
+
+theorem toDigits_no_sep (b : Nat) (hb : 1 < b) (hb16 : b ≤ 16) (n : Nat) :
+    ∀ c ∈ Nat.toDigits b n, isSep c = false := by
+  intro c hc
+  obtain ⟨d, hd, rfl⟩ := mem_toDigits b hb n c hc
+  exact digitChar_not_sep d (by omega)
+
+theorem stripPlus_of_no_sep (s : List Char) (h : ∀ c ∈ s, isSep c = false) : stripPlus s = s := by
+  cases s with
+  | nil => rfl
+  | cons c cs =>
+    have hc := h c (by simp)
+    unfold stripPlus
+    split
+    · rename_i r heq
+      injection heq with h1 _
+      subst h1
+      simp [isSep] at hc
+    · rfl
+
+/-- a printed number parses back (any base ≤ 16 whose digit characters the digit function knows) -/
+theorem parseUInt_toDigits (val : Char → Option Nat) (b : Nat) (hb : 1 < b) (hb16 : b ≤ 16)
+    (hval : ∀ d, d < b → val (Nat.digitChar d) = some d) (n max : Nat) (hn : n ≤ max) :
+    parseUInt val b max (Nat.toDigits b n) = some n := by
+  unfold parseUInt
+  rw [stripPlus_of_no_sep _ (toDigits_no_sep b hb hb16 n)]
+  have hne : (Nat.toDigits b n).isEmpty = false := by
+    cases h : Nat.toDigits b n with
+    | nil => exact absurd h Nat.toDigits_ne_nil
+    | cons _ _ => rfl
+  simp [hne, digitsVal_toDigits val b hb hval n, hn]
+
+theorem splitOnce_none (sep : Char) (a : List Char) (h : ∀ c ∈ a, c ≠ sep) : splitOnce sep a = (a, none) := by
+  induction a with
+  | nil => rfl
+  | cons c cs ih =>
+    simp only [splitOnce, h c (by simp), if_false, ih (fun x hx => h x (by simp [hx]))]
+
+theorem splitOnce_some (sep : Char) (a b : List Char) (h : ∀ c ∈ a, c ≠ sep) :
+    splitOnce sep (a ++ sep :: b) = (a, some b) := by
+  induction a with
+  | nil => simp [splitOnce]
+  | cons c cs ih =>
+    simp only [List.cons_append, splitOnce, h c (by simp), if_false, ih (fun x hx => h x (by simp [hx]))]
+
+theorem no_sep_ne {s : List Char} (h : ∀ c ∈ s, isSep c = false) (sep : Char) (hsep : isSep sep = true) :
+    ∀ c ∈ s, c ≠ sep := by
+  intro c hc heq
+  have := h c hc
+  rw [heq, hsep] at this
+  cases this
+
+theorem showDec_no_sep (n : Nat) : ∀ c ∈ showDec n, isSep c = false := toDigits_no_sep 10 (by decide) (by decide) n
+theorem showHex_no_sep (n : Nat) : ∀ c ∈ showHex n, isSep c = false := toDigits_no_sep 16 (by decide) (by decide) n
+
+theorem parseU16_showDec (n : Nat) (h : n < 2 ^ 16) : parseU16 (showDec n) = some n :=
+  parseUInt_toDigits decVal 10 (by decide) (by decide) decVal_digitChar n _ (by simp [U16_MAX]; omega)
+
+theorem parseIsd_showDec (n : Nat) (h : n < 2 ^ ISD_BITS) : parseIsd (showDec n) = some n :=
+  parseUInt_toDigits decVal 10 (by decide) (by decide) decVal_digitChar n _ (by omega)
+
+/-- a string containing `:` is not a decimal number -/
+theorem parseUInt_dec_colon (max : Nat) (a b : List Char) : parseUInt decVal 10 max (a ++ ':' :: b) = none := by
+  have key : ∀ (s : List Char) (acc : Nat), ':' ∈ s → digitsVal decVal 10 s acc = none := by
+    intro s
+    induction s with
+    | nil => intro _ h; simp at h
+    | cons c cs ih =>
+      intro acc h
+      simp only [digitsVal]
+      cases hv : decVal c with
+      | none => rfl
+      | some d =>
+        simp only
+        rcases List.mem_cons.mp h with h | h
+        · subst h
+          have hcol : decVal ':' = none := by decide
+          rw [hcol] at hv; cases hv
+        · exact ih _ h
+  unfold parseUInt
+  have hmem : ':' ∈ stripPlus (a ++ ':' :: b) := by
+    unfold stripPlus
+    split
+    · rename_i r heq
+      cases a with
+      | nil => simp at heq
+      | cons c cs =>
+        simp only [List.cons_append, List.cons.injEq] at heq
+        rw [← heq.2]; simp
+    · simp
+  simp only [key _ 0 hmem]
+  split <;> rfl
+
+theorem parseHex16_showHex (n : Nat) (h : n < 2 ^ 16) : parseUInt hexVal 16 U16_MAX (showHex n) = some n :=
+  parseUInt_toDigits hexVal 16 (by decide) (by decide) hexVal_digitChar n _ (by simp [U16_MAX]; omega)
+
+/-- `Asn`: print then parse -/
+theorem parseAsn_showAsn (a : Nat) (h : a < 2 ^ ASN_BITS) : parseAsn (showAsn a) = some a := by
+  unfold showAsn
+  by_cases hd : a ≤ ASN_DECIMAL_MAX
+  · simp only [hd, if_true, parseAsn]
+    rw [show parseUInt decVal 10 U64_MAX (showDec a) = some a from
+      parseUInt_toDigits decVal 10 (by decide) (by decide) decVal_digitChar a _
+        (Nat.le_trans hd (by decide))]
+    simp [hd]
+  · simp only [hd, if_false, parseAsn]
+    rw [parseUInt_dec_colon]
+    have hc : isSep ':' = true := by decide
+    have s1 := splitOnce_some ':' (showHex (a / 2 ^ (ASN_BITS_PER_PART * 2) % 2 ^ 16))
+      (showHex (a / 2 ^ ASN_BITS_PER_PART % 2 ^ 16) ++ ':' :: showHex (a % 2 ^ 16))
+      (no_sep_ne (showHex_no_sep _) ':' hc)
+    have s2 := splitOnce_some ':' (showHex (a / 2 ^ ASN_BITS_PER_PART % 2 ^ 16)) (showHex (a % 2 ^ 16))
+      (no_sep_ne (showHex_no_sep _) ':' hc)
+    have hparts : splitN ':' ASN_NUMBER_PARTS
+        (showHex (a / 2 ^ (ASN_BITS_PER_PART * 2) % 2 ^ 16) ++ ':' ::
+          (showHex (a / 2 ^ ASN_BITS_PER_PART % 2 ^ 16) ++ ':' :: showHex (a % 2 ^ 16))) =
+        [showHex (a / 2 ^ (ASN_BITS_PER_PART * 2) % 2 ^ 16), showHex (a / 2 ^ ASN_BITS_PER_PART % 2 ^ 16),
+          showHex (a % 2 ^ 16)] := by
+      show splitN ':' 3 _ = _
+      simp only [splitN, s1, s2]
+    simp only [List.append_assoc, List.cons_append]
+    rw [hparts]
+    simp only [foldAsnParts, parseHex16_showHex _ (Nat.mod_lt _ (by decide))]
+    have hb : ASN_BITS = 48 := rfl
+    have hp : ASN_BITS_PER_PART = 16 := rfl
+    have hn : ASN_NUMBER_PARTS = 3 := rfl
+    simp only [hb, hp, hn] at h ⊢
+    have hval : ((0 * 2 ^ 16 + a / 2 ^ (16 * 2) % 2 ^ 16) * 2 ^ 16 + a / 2 ^ 16 % 2 ^ 16) * 2 ^ 16 + a % 2 ^ 16 = a := by
+      omega
+    simp only [hval]
+    have : a ≤ 2 ^ 48 - 1 := by omega
+    simp [this]
+
+theorem showAsn_chars (a : Nat) : ∀ c ∈ showAsn a, isSep c = false ∨ c = ':' := by
+  intro c hc
+  unfold showAsn at hc
+  split at hc
+  · exact .inl (showDec_no_sep _ c hc)
+  · simp only [List.mem_append, List.mem_cons] at hc
+    rcases hc with (h | h | h) | h | h
+    · exact .inl (showHex_no_sep _ c h)
+    · exact .inr h
+    · exact .inl (showHex_no_sep _ c h)
+    · exact .inr h
+    · exact .inl (showHex_no_sep _ c h)
+
+theorem showAsn_ne (a : Nat) (sep : Char) (hsep : isSep sep = true) (hne : sep ≠ ':') :
+    ∀ c ∈ showAsn a, c ≠ sep := by
+  intro c hc heq
+  rcases showAsn_chars a c hc with h | h
+  · rw [heq, hsep] at h; cases h
+  · exact hne (heq ▸ h)
+
+theorem parseIfs_showIfs (f : Ifs) (hne : f ≠ .any)
+    (hf : match f with | .any => True | .either a => a < 2 ^ 16 | .both a b => a < 2 ^ 16 ∧ b < 2 ^ 16) :
+    parseIfs (showIfs f) = some f := by
+  have hsep : isSep SEP_IF = true := by decide
+  cases f with
+  | any => exact absurd rfl hne
+  | either a =>
+    simp only [showIfs, parseIfs, splitOnce_none SEP_IF _ (no_sep_ne (showDec_no_sep a) _ hsep),
+      parseU16_showDec a hf, Option.map_some]
+  | both a b =>
+    simp only [showIfs, parseIfs, splitOnce_some SEP_IF _ _ (no_sep_ne (showDec_no_sep a) _ hsep),
+      parseU16_showDec a hf.1, parseU16_showDec b hf.2]
+
+/-- the predicates whose numbers fit their Rust types (`u16`, 48-bit `Asn`, `u16`) -/
+def Pred.InRange (p : Pred) : Prop :=
+  p.isd < 2 ^ ISD_BITS ∧ (∀ a, p.asn = some a → a < 2 ^ ASN_BITS) ∧
+    (match p.ifs with | .any => True | .either a => a < 2 ^ IF_BITS | .both a b => a < 2 ^ IF_BITS ∧ b < 2 ^ IF_BITS)
+
+/-- **Print then parse**, for every predicate in the image of the parser (no AS part ⇒ no interface part). -/
+theorem parsePred_showPred (p : Pred) (hr : p.InRange) (hshape : p.asn = none → p.ifs = .any) :
+    parsePred (showPred p) = some p := by
+  obtain ⟨isd, asn, ifs⟩ := p
+  obtain ⟨hisd, hasn, hifs⟩ := hr
+  simp only at hisd hasn hifs hshape
+  have hs1 : isSep SEP_ISD_ASN = true := by decide
+  have hs2 : isSep SEP_ASN_IF = true := by decide
+  have hisd' := no_sep_ne (showDec_no_sep isd) _ hs1
+  cases asn with
+  | none =>
+    rw [hshape rfl]
+    simp only [showPred, List.append_nil, parsePred, splitOnce_none _ _ hisd', parseIsd_showDec isd hisd,
+      Option.map_some]
+  | some a =>
+    have ha := hasn a rfl
+    have hasn1 := showAsn_ne a SEP_ASN_IF hs2 (by decide)
+    cases hifs' : ifs with
+    | any =>
+      simp only [showPred, List.append_nil, parsePred, splitOnce_some _ _ _ hisd', parseIsd_showDec isd hisd,
+        splitOnce_none _ _ hasn1, parseAsn_showAsn a ha, Option.map_some]
+    | either i =>
+      subst hifs'
+      have := parseIfs_showIfs (.either i) (by simp) hifs
+      simp only [showPred, List.append_assoc, List.cons_append, parsePred, splitOnce_some _ _ _ hisd',
+        parseIsd_showDec isd hisd, splitOnce_some _ _ _ hasn1, parseAsn_showAsn a ha, this, Option.map_some]
+    | both i e =>
+      subst hifs'
+      have := parseIfs_showIfs (.both i e) (by simp) hifs
+      simp only [showPred, List.append_assoc, List.cons_append, parsePred, splitOnce_some _ _ _ hisd',
+        parseIsd_showDec isd hisd, splitOnce_some _ _ _ hasn1, parseAsn_showAsn a ha, this, Option.map_some]
+
+theorem digitChar_plain : ∀ d, d < 16 → stopsPred (Nat.digitChar d) = false := by decide
+
+theorem toDigits_plain (b : Nat) (hb : 1 < b) (hb16 : b ≤ 16) (n : Nat) :
+    ∀ c ∈ Nat.toDigits b n, stopsPred c = false := by
+  intro c hc
+  obtain ⟨d, hd, rfl⟩ := mem_toDigits b hb n c hc
+  exact digitChar_plain d (by omega)
+
+/-- a printed predicate contains no whitespace and no reserved character: in a pattern it is one token -/
+theorem showPred_plain (p : Pred) : ∀ c ∈ showPred p, stopsPred c = false := by
+  have hdec : ∀ n, ∀ c ∈ showDec n, stopsPred c = false := toDigits_plain 10 (by decide) (by decide)
+  have hhex : ∀ n, ∀ c ∈ showHex n, stopsPred c = false := toDigits_plain 16 (by decide) (by decide)
+  have hcol : stopsPred ':' = false := by decide
+  have h1 : stopsPred SEP_ISD_ASN = false := by decide
+  have h2 : stopsPred SEP_ASN_IF = false := by decide
+  have h3 : stopsPred SEP_IF = false := by decide
+  have hasn : ∀ a, ∀ c ∈ showAsn a, stopsPred c = false := by
+    intro a c hc
+    unfold showAsn at hc
+    split at hc
+    · exact hdec _ c hc
+    · simp only [List.mem_append, List.mem_cons] at hc
+      rcases hc with (h | h | h) | h | h
+      · exact hhex _ c h
+      · exact h ▸ hcol
+      · exact hhex _ c h
+      · exact h ▸ hcol
+      · exact hhex _ c h
+  intro c hc
+  obtain ⟨isd, asn, ifs⟩ := p
+  simp only [showPred, List.mem_append] at hc
+  rcases hc with (h | h) | h
+  · exact hdec _ c h
+  · cases asn with
+    | none => simp at h
+    | some a =>
+      rcases List.mem_cons.mp h with h | h
+      · exact h ▸ h1
+      · exact hasn a c h
+  · cases ifs with
+    | any => simp at h
+    | either i =>
+      rcases List.mem_cons.mp h with h | h
+      · exact h ▸ h2
+      · exact hdec _ c h
+    | both i e =>
+      rcases List.mem_cons.mp h with h | h
+      · exact h ▸ h2
+      · simp only [showIfs, List.mem_append, List.mem_cons] at h
+        rcases h with h | h | h
+        · exact hdec _ c h
+        · exact h ▸ h3
+        · exact hdec _ c h
+
+theorem showPred_ne_nil (p : Pred) : showPred p ≠ [] := by
+  unfold showPred showDec
+  intro h
+  simp only [List.append_eq_nil_iff] at h
+  exact Nat.toDigits_ne_nil h.1.1
+
+/-! ## 7. hops_from_path -/
+
+theorem middleHops_len : ∀ (l : List Iface) (hs : List Hop) (last : Iface),
+    middleHops l = .ok (hs, last) → l.length = 2 * hs.length + 1
+  | [], _, _, h => by simp [middleHops] at h
+  | [x], hs, last, h => by
+    simp only [middleHops, Except.ok.injEq, Prod.mk.injEq] at h
+    simp [← h.1]
+  | a :: b :: rest, hs, last, h => by
+    simp only [middleHops] at h
+    cases hr : middleHops rest with
+    | error e => simp [hr] at h
+    | ok v =>
+      obtain ⟨hs', l'⟩ := v
+      simp only [hr] at h
+      split at h
+      · simp at h
+      · simp only [Except.ok.injEq, Prod.mk.injEq] at h
+        have := middleHops_len rest hs' l' hr
+        simp [← h.1]; omega
+
 end ScionVerif.Policy
